@@ -176,47 +176,6 @@ Qed.
 Lemma cli_nofilter_all : forall c M rel, cli_cfg ([], [], [], []) = Some c -> decide c M rel = true.
 Proof. intros c M rel H. inversion H; subst c. reflexivity. Qed.
 
-(* ---------- finding F4: today's chain loses the two regex flags ---------- *)
-(* the regex lists never reach tablelist: the filter is configured as an empty blacklist *)
-Lemma cli_cfg_wlr_today x l : cli_cfg (flags_of WLR (x :: l)) = Some (false, true, []).
-Proof. reflexivity. Qed.
-Lemma cli_cfg_blr_today x l : cli_cfg (flags_of BLR (x :: l)) = Some (false, true, []).
-Proof. reflexivity. Qed.
-
-Definition f4_rx : string := "^public\.a$".
-Definition f4_matrix : list (string * string) := [(f4_rx, "public.a")].   (* Go: only public.a matches *)
-
-Lemma cli_refuted_wlr :
-  exists lst c, lst <> [] /\ cli_cfg (flags_of WLR lst) = Some c /\
-    decide c (matrix_fn f4_matrix) "public.b" = true /\ ~ permitted WLR lst (matrix_fn f4_matrix) "public.b".
-Proof.
-  exists [f4_rx], (false, true, []). split; [discriminate|]. split; [reflexivity|]. split; [reflexivity|].
-  intros (r & [<-|[]] & Hm). vm_compute in Hm. discriminate.
-Qed.
-
-Lemma cli_refuted_blr :
-  exists lst c, lst <> [] /\ cli_cfg (flags_of BLR lst) = Some c /\
-    decide c (matrix_fn f4_matrix) "public.a" = true /\ ~ permitted BLR lst (matrix_fn f4_matrix) "public.a".
-Proof.
-  exists [f4_rx], (false, true, []). split; [discriminate|]. split; [reflexivity|]. split; [reflexivity|].
-  intros H. specialize (H f4_rx (or_introl eq_refl)). vm_compute in H. discriminate.
-Qed.
-
-Lemma cli_statement_refuted : ~ C08_cli_statement.
-Proof.
-  intros H. destruct cli_refuted_wlr as (lst & c & Hne & Hc & Hd & Hp).
-  apply Hp. apply (H WLR lst Hne c Hc). exact Hd.
-Qed.
-
-(* the exclusivity test is a conjunction of all four: any two or three flags are accepted *)
-Lemma cli_exclusive_refuted : ~ C08_cli_exclusive_statement.
-Proof.
-  intros H. specialize (H (["a"], ["b"], [], [])). simpl in H.
-  assert (2 <= 2) as H2 by lia. specialize (H H2). vm_compute in H. discriminate.
-Qed.
-
-(* what a combination does today: a plain whitelist given together with a regex flag is itself
-   used as a list of (unanchored) regular expressions *)
-Lemma cli_combination_today :
-  cli_cfg (["a"], [], ["^z"], []) = Some (true, true, ["a"]).
-Proof. reflexivity. Qed.
+(* finding F4 (the two regex flags never reached tablelist; the exclusivity test was a
+   conjunction) was repaired in /repo commit 1362dd8; the lemmas that described the old chain were
+   removed with it.  The full statements are proved in props/C08.v. *)
